@@ -3,6 +3,7 @@ package mocker
 import (
 	"errors"
 
+	"github.com/tencent/goom/arg"
 	"github.com/tencent/goom/erro"
 )
 
@@ -242,4 +243,61 @@ func VC_C13_result_rows() {
 	b.Reset()
 	verifAssert(!vDiverted(vC13One) && !vDiverted(get), "C13.rows.reset-leaves-untouched")
 	verifReached("C13.rows")
+}
+
+// VC_C13_chained_condition_mistakes: a condition row with too few (or too many) arguments
+// given on a chained call - after a valid Return has already configured the target - is
+// rejected as well: through When, through flat In alternatives and through a Matches pair;
+// for a function and for a method.
+func VC_C13_chained_condition_mistakes() {
+	vEnv()
+	vPristine(vC13F)
+	get := interface{}((*vC13T).Get)
+	vPristine(get)
+	b := Create()
+	onMethod := verifBool("method")
+	short := verifBool("oneShort") // else: one too many
+	panicked := false
+	func() {
+		defer func() {
+			if r := recover(); r != nil {
+				panicked = true
+			}
+		}()
+		api := verifChoice("api", 3)
+		if onMethod { // Get(i int) int
+			w := b.Struct(&vC13T{}).Method("Get").Return(1)
+			row := []interface{}{1, 2}
+			if short {
+				row = []interface{}{}
+			}
+			switch api {
+			case 0:
+				w.When(row...)
+			case 1:
+				w.In(row)
+			default:
+				w.Matches(arg.Pair{Args: row, Return: 1})
+			}
+			return
+		}
+		// vC13F(a int, s string) (int, error)
+		w := b.Func(vC13F).Return(1, nil)
+		row := []interface{}{1, "s", 3}
+		if short {
+			row = []interface{}{1}
+		}
+		switch api {
+		case 0:
+			w.When(row...)
+		case 1:
+			w.In(row)
+		default:
+			w.Matches(arg.Pair{Args: row, Return: []interface{}{1, nil}})
+		}
+	}()
+	verifAssert(panicked, "C13.chained.ill-formed-condition-row-rejected")
+	b.Reset()
+	verifAssert(!vDiverted(vC13F) && !vDiverted(get), "C13.chained.reset-restores")
+	verifReached("C13.chained")
 }
